@@ -202,11 +202,9 @@ func (c *Conn) waitCloseHandshake() error {
 	}
 	defer c.readMu.unlock()
 
-	for i := int64(0); i < c.msgReader.payloadLength; i++ {
-		_, err := c.br.ReadByte()
-		if err != nil {
-			return err
-		}
+	err = c.discardFramePayload(ctx, c.msgReader.payloadLength)
+	if err != nil {
+		return err
 	}
 
 	for {
@@ -215,13 +213,29 @@ func (c *Conn) waitCloseHandshake() error {
 			return err
 		}
 
-		for i := int64(0); i < h.payloadLength; i++ {
-			_, err := c.br.ReadByte()
-			if err != nil {
-				return err
-			}
+		err = c.discardFramePayload(ctx, h.payloadLength)
+		if err != nil {
+			return err
 		}
 	}
+}
+
+// discardFramePayload reads and drops n payload bytes. It goes through
+// readFramePayload so that the read is bounded by ctx like every other
+// read on the connection.
+func (c *Conn) discardFramePayload(ctx context.Context, n int64) error {
+	for n > 0 {
+		b := c.readControlBuf[:]
+		if int64(len(b)) > n {
+			b = b[:n]
+		}
+		m, err := c.readFramePayload(ctx, b)
+		if err != nil {
+			return err
+		}
+		n -= int64(m)
+	}
+	return nil
 }
 
 func (c *Conn) waitGoroutines() error {
